@@ -5,7 +5,7 @@ from .. import coregen
 ID = "C03"
 SUITES = ["core"]
 LEAN_MODULES = ["VpnCloud.Proofs.C03"]
-THEOREMS = []
+THEOREMS = ["VpnCloud.Proofs.C03." + n for n in ("window_refines", "decrypt_authentic", "everySecond_slots", "threshold_mono", "dies_in_two_ticks", "newest_always_accepted", "any_order_inside_window")]
 BATCH = 100
 SEARCH_BUDGET_S = 300
 EXPECTED_CLASSES = ["seal:d", "deliver:ok", "deliver:err", "tick:ok"]
